@@ -7,6 +7,7 @@
 // <crc> = option flags of THAT session (mkopts: 1 checksum checking, 2 4 KB log buffer, 4 no trim on close); the flags of a
 // rec/wal/continuation session need not be the writer's: the checks also recover with the other buffer size / checksum setting
 // ops: p<db>:<keyhex>:<vlen>:<seed>  d<db>:<keyhex>  s (iwkv_sync)  c (checkpoint)  n<db> (create db)  q (close, exit)
+//      Q<k> (close whose k-th log write fails with EFBIG, exit)
 //      b (online backup into <dir>/bkp)
 // Effects are numbered through the iwverif_fx hook when /repo has it (IOWOW_VERIF_FX_HOOK), otherwise
 // through -Wl,--wrap of the libc calls (HWAL_WRAP), otherwise not at all (op-boundary kills only).
@@ -84,8 +85,22 @@ static struct rlimit g_rl_saved;
 static void fail_restore(void) {
   if (g_fail_armed) { setrlimit(RLIMIT_FSIZE, &g_rl_saved); g_fail_armed = 0; }
 }
+// op Q<k>: iwkv_close whose k-th write to the log file fails (disk full); same mechanism
+static int g_qfail_at, g_qfail_cnt;
 static void fx(int kind, int fd, long long off, long long len) {
   fail_restore();
+  if (g_qfail_at && kind == FX_WRITE && fdclass(fd) == 'W' && ++g_qfail_cnt == g_qfail_at) {
+    struct stat st;
+    if (!fstat(fd, &st)) {
+      struct rlimit rl;
+      getrlimit(RLIMIT_FSIZE, &g_rl_saved);
+      rl = g_rl_saved;
+      rl.rlim_cur = (rlim_t) st.st_size;
+      signal(SIGXFSZ, SIG_IGN);
+      tr("G qfail %d %lld\n", g_qfail_cnt, (long long) st.st_size);
+      if (!setrlimit(RLIMIT_FSIZE, &rl)) g_fail_armed = 1;
+    }
+  }
   if (kind == FX_WALREC) {
     long long v[3] = { fd, off, len };
     for (int i = 0; i < 3; ++i) for (int k = 0; k < 8; ++k) {
@@ -380,9 +395,13 @@ static void exec_op(int i) {
       if (sf >= 0) close(sf);
       tr("X %s %lld %d\n", rcs(rc), fsize(bp), (n == (ssize_t) sizeof(sentinel) && !memcmp(rb, sentinel, sizeof(sentinel))) ? 1 : 0);
     }
-  } else if (op[0] == 'q') {
-    // clean close (checkpoint on close), then leave
+  } else if (op[0] == 'q' || op[0] == 'Q') {
+    // clean close (checkpoint on close), then leave.  Q<k>: the k-th write to the log file made by the close fails
+    // with EFBIG - iwkv_close must report it (or the data must be there at the next open)
+    if (op[0] == 'Q') { g_qfail_cnt = 0; g_qfail_at = atoi(op + 1) > 0 ? atoi(op + 1) : 1; }
     rc = iwkv_close(&g_kv);
+    g_qfail_at = 0;
+    fail_restore();
     tr("E %d %s %lld %lld\n", i, rcs(rc), fsize(g_walpath), fsize(g_dbpath));
     tr("N %lld\n", g_fx_n);
     _exit(0);
